@@ -6,6 +6,10 @@ from ..tables import t19_dispatch
 def run(ctx: Ctx) -> None:
     t19_dispatch.run_dispatch(ctx)
     t19_dispatch.run_copies(ctx)
+    t19_dispatch.run_pickle(ctx)
+    t19_dispatch.run_collate(ctx)
+    ctx.floor("T19.collate", 12)
+    ctx.floor("T19.pickle", 8)
     ctx.floor("T19.copy", 8)
     ctx.floor("T19.dispatch", 50)
     ctx.floor("T19.index", 24)
